@@ -386,6 +386,12 @@ htp_status_t htp_connp_REQ_CONNECT_WAIT_RESPONSE(htp_connp_t *connp) {
         return HTP_DATA_OTHER;
     }
 
+    // An interim 100 Continue is not the answer to the CONNECT; keep waiting
+    // (once it is complete, response parsing restarts with the next status line).
+    if (connp->in_tx->response_status_number == 100) {
+        return HTP_DATA_OTHER;
+    }
+
     // A 2xx response means a tunnel was established. Anything
     // else means we continue to follow the HTTP stream.
     if ((connp->in_tx->response_status_number >= 200) && (connp->in_tx->response_status_number <= 299)) {
